@@ -213,7 +213,7 @@ pub fn solve_ivp_py<'py>(
     let result = solve_ivp(&python_ivp, t0, tf, &y0_vec, opts);
 
     match result {
-        Ok(sol) => build_result(py, sol, events.is_some(), is_constant_jac),
+        Ok(sol) => build_result(py, sol, y0_vec.len(), events.is_some(), is_constant_jac),
         Err(e) => Err(pyo3::exceptions::PyRuntimeError::new_err(format!(
             "Solver failed: {:?}",
             e
@@ -346,12 +346,13 @@ fn parse_options(
 fn build_result<'py>(
     py: Python<'py>,
     sol: crate::solve::Solution,
+    n_states: usize,
     has_events: bool,
     is_constant_jac: bool,
 ) -> PyResult<Bound<'py, PyAny>> {
     // Transpose y from (time, state) to (state, time) for SciPy compatibility
+    // (n_states comes from y0 so that an empty result still has shape (n, 0) as in SciPy)
     let n_steps = sol.y.len();
-    let n_states = if n_steps > 0 { sol.y[0].len() } else { 0 };
 
     let mut y_transposed = vec![0.0; n_steps * n_states];
     for (i, step) in sol.y.iter().enumerate() {
